@@ -1628,10 +1628,35 @@ void recursive_cases(char const *tname, std::vector<T> const &values)
       vf::add_evals(12);
     }
 }
+// a JSON-like value: constructible from an int AND from a list of values of its own type - recursive<jv>(x) holds x, not {x}
+struct jv
+{
+  int v = 0;
+  std::vector<jv> items;
+  jv(int x) : v(x) {} // NOLINT
+  jv(std::initializer_list<jv> l) : v(-1), items(l) {}
+  friend bool operator==(jv const &a, jv const &b) { return a.v == b.v && a.items == b.items; }
+  friend bool operator!=(jv const &a, jv const &b) { return !(a == b); }
+};
 void slice0_recursive_wrapper()
 {
   if (!entry_selected("recursive-wrapper"))
     return;
+  if (vf::begin_case("recursive<jv> (a type with an initializer_list<jv> constructor): construction, copy, copy assignment, make_recursive, make_unique_ptr"))
+  {
+    for (jv const &x : {jv(7), jv{jv(1), jv(2)}, jv{}})
+    {
+      fcppt::recursive<jv> const r(x);
+      fcppt::recursive<jv> const c(r);
+      fcppt::recursive<jv> a(jv(99));
+      a = r;
+      VF_COUNT("wrappers/recursive-list-constructible-type");
+      if (r.get() != x || c.get() != x || a.get() != x || fcppt::make_recursive(x).get() != x || *fcppt::make_unique_ptr<jv>(x) != x || !(r == c))
+        vf::violation("recursive<list-constructible>/does-not-expose-the-wrapped-object", "mismatch",
+                      "value with v=" + std::to_string(x.v) + " and " + std::to_string(x.items.size()) + " items: the wrapper holds v=" + std::to_string(r.get().v) + " with " +
+                          std::to_string(r.get().items.size()) + " items");
+    }
+  }
   // a wrapped value whose own == is not reflexive (NaN): the wrapper "exposes exactly the wrapped object" - its == is the
   // == of the wrapped values, whether the two operands are one object or two
   if (vf::begin_case("recursive<double> holding NaN / 1.5: self comparison, aliases, copies"))
